@@ -168,6 +168,15 @@ CI8PayloadSize(w, h) == AlignUp(w, CI8BlockW) * AlignUp(h, CI8BlockH)
 CI8Index(w, x, y) ==
   ((y \div CI8BlockH) * (AlignUp(w, CI8BlockW) \div CI8BlockW) + (x \div CI8BlockW)) * (CI8BlockW * CI8BlockH)
   + (y % CI8BlockH) * CI8BlockW + (x % CI8BlockW)
+\* the inverse question: does payload offset o (0-based) hold a texel inside the w x h crop?  The other
+\* offsets are padding up to the block size: their content is "don't care" (any byte, also one
+\* that is no valid palette index); nothing in the expected image depends on them.
+CI8InCrop(w, h, o) ==
+  LET blk == o \div (CI8BlockW * CI8BlockH)
+      bw  == AlignUp(w, CI8BlockW) \div CI8BlockW
+      x   == (blk % bw) * CI8BlockW + (o % CI8BlockW)
+      y   == (blk \div bw) * CI8BlockH + ((o % (CI8BlockW * CI8BlockH)) \div CI8BlockW)
+  IN x < w /\ y < h
 \* sources of texel (x, y) of a w x h palette image; pal = RGB5A3 palette bytes
 CI8Src(w, b, pal, x, y) == Rgb5a3Src(U16BE(pal, 2 * b[CI8Index(w, x, y) + 1]))
 \* every texel inside the crop refers to a palette entry that exists
